@@ -310,7 +310,7 @@ TMODELS = {('Handler', 'Svc', 'e1'): T_handler, ('Handler', 'Svc', 'e2'): T_hand
 class Param:
     """one request source with symbolic multiplicity (0..2 values) and symbolic bytes (<= L per value)"""
 
-    def __init__(self, st, name, L, maxn=2, ascii_only=True, allow_nontext=False):
+    def __init__(self, st, name, L, maxn=2, ascii_only=True, allow_nontext=False, forbid=()):
         self.name, self.L = name, L
         self.n = z3.BitVec(f'{name}_n', 64)
         st.pc.append(z3.ULE(self.n, maxn))
@@ -324,6 +324,9 @@ class Param:
             if allow_nontext:
                 # http::HeaderValue invariant: no control bytes except tab, no DEL (bytes >= 0x80 are allowed: opaque, not text)
                 st.pc.append(z3.And(*[z3.Or(z3.And(z3.UGE(b, 32), b != 127), b == 9) for b in bs]))
+            for fb in forbid:
+                # transport contract: e.g. a raw path segment never contains '/' (the router splits the path on it)
+                st.pc.append(z3.And(*[b != fb for b in bs]))
             self.vals.append(BStr(tuple(bs), ln))
 
     def vars(self):
